@@ -142,9 +142,12 @@ func (m *Modifier) ModifyResponse(res *http.Response) error {
 			return err
 		}
 
-		if start > end {
+		if start > end || start >= len(m.body) {
 			res.StatusCode = http.StatusRequestedRangeNotSatisfiable
 			return nil
+		}
+		if end >= len(m.body) {
+			end = len(m.body) - 1
 		}
 
 		ranges = append(ranges, []int{start, end})
